@@ -556,6 +556,10 @@ func runC03(c *Ctx) {
 	c.rule("R15", "a stream server answers every query it has read: the connection is closed only after its in-flight handlers finished", 1)
 	checkStreamServerAnswersInflight(c)
 
+	// ---------------------------------------------------------------- R16
+	c.rule("R16", "every pipelined query on a stream is read: the frame reader gets the connection itself (no per-frame buffering wrapper), after a framing error the stream is not read again", 6)
+	checkFrameDiscipline(c)
+
 	// ---------------------------------------------------------------- R14
 	c.rule("R14", "a query that fits DNS also fits the DoH GET request: the HTTP server's header limit leaves room for the base64 query", 1)
 	checkHTTPHeaderLimit(c)
